@@ -2,11 +2,7 @@
 // model (IgrisModel/C11).  The code under test is compiled in C11_shim.c with
 // renamed symbols (igv_*), so `strtol` etc. below are the HOST functions
 // (used only as an oracle).
-#include "common/hv.h"
-#include <algorithm>
-#include <cinttypes>
-#include <climits>
-#include <set>
+#include "C11_common.h"
 #include <sys/wait.h>
 
 extern "C"
@@ -23,22 +19,39 @@ extern "C"
     void *igv_bsearch(const void *, const void *, size_t, size_t, int (*)(const void *, const void *));
     int igv_rand(void);
     void igv_srand(unsigned);
-    int64_t igv_strtoq(const char *, char **, int);
-    uint64_t igv_strtouq(const char *, char **, int);
+    // strtoq / strtouq (BSD names, the `#else` branch of strtoll.c / strtoull.c, in no public header and
+    // not named by the property): OPTIONAL - weak references; when the library does not define them the
+    // ops run strtoll / strtoull, which is what they are specified to equal (tag `strtoq-absent`)
+    int64_t igv_strtoq(const char *, char **, int) __attribute__((weak));
+    uint64_t igv_strtouq(const char *, char **, int) __attribute__((weak));
     void *igv_upper_bound(const void *, const void *, size_t, size_t, int (*)(const void *, const void *));
     void *igv_lower_bound(const void *, const void *, size_t, size_t, int (*)(const void *, const void *));
     int igv_rand_r(unsigned int *);
-    size_t igv_rand_state_size(void);
-    unsigned long long igv_rand_state(void);
-    int igv_rand_state_unsigned(void);
     int igv_erange(void);
     int igv_einval(void);
     int igv_ctype_bits(int);
 }
 
-using namespace hv;
-typedef std::vector<uint8_t> bytes;
-typedef unsigned __int128 u128;
+static int64_t call_strtoq(const char *s, char **e, int b) { return igv_strtoq ? igv_strtoq(s, e, b) : (int64_t)igv_strtoll(s, e, b); }
+static uint64_t call_strtouq(const char *s, char **e, int b) { return igv_strtouq ? igv_strtouq(s, e, b) : (uint64_t)igv_strtoull(s, e, b); }
+// rand.c's state is a file-static: probed by behaviour, not named.  The generator keeps all 32 bits of
+// srand()'s argument in an unsigned state iff seeds that differ only in high bits give the sequences the
+// documented LCG gives in 64-bit arithmetic (a narrower state collapses them; a signed one overflows: UBSan).
+static uint64_t lcg_ref(uint64_t x) { return ((x * 16546134871ull + 513585871ull) & 0xffffffffull) % 204814687ull; }
+static bool rand_state_ge32u()
+{
+    for (unsigned s : {5u, 0x10005u, 0x80000005u, 0xffffffffu, 0x7fffffffu})
+    {
+        igv_srand(s);
+        uint64_t ref = s;
+        for (int i = 0; i < 4; i++)
+        {
+            ref = lcg_ref(ref);
+            if ((uint64_t)igv_rand() != ref / 2) return false;
+        }
+    }
+    return true;
+}
 
 static_assert(sizeof(long) == 8 && sizeof(long long) == 8 && sizeof(intmax_t) == 8 && sizeof(int) == 4, "LP64 host assumed by the driver's instantiation (widths op)");
 static_assert((char)-1 < 0, "char is signed on this host");
@@ -116,21 +129,6 @@ static bool elem_intact(const uint8_t *p, unsigned esize)
     for (unsigned j = 2; j < esize; j++)
         if (p[j] != tagbyte(p[1], p[0], j)) return false;
     return true;
-}
-
-// comparator kinds (all are consistent weak orders on the key byte)
-static int cmp_keys(int kind, int a, int b)
-{
-    switch (kind)
-    {
-    case 0: return a - b;                                   // ascending, varying magnitude
-    case 1: return b - a;                                   // descending
-    case 2: return (a / 2 < b / 2) ? -1 : (a / 2 > b / 2);  // classes {2k,2k+1}
-    case 3: return 0;                                       // everything equal
-    case 5: return a / 16 - b / 16;                         // large classes: 16 keys each
-    case 6: return (a & 15) - (b & 15);                     // only a part of the key (low nibble) is compared
-    default: return a < b ? INT_MIN : a > b ? INT_MAX : 0;  // extreme magnitudes
-    }
 }
 
 // comparator call log ------------------------------------------------------
@@ -299,6 +297,172 @@ static std::vector<int> ints(const std::string &s)
     return v;
 }
 
+// ------------------------------------------------------------ nested calls (re-entrancy)
+// A comparator may itself call qsort / bsearch / strto* on OTHER data (rows ordered by their sorted
+// contents, keys parsed from text ...): it is still a pure function of its two arguments, so the
+// property's clauses hold for the outer call and for every nested call.  `nested_work` runs, from inside
+// a comparator of an outer qsort/bsearch (on this thread, or on a second thread that is joined before the
+// comparator returns, so that the two calls overlap in time deterministically), a complete qsort of a
+// private array, bsearch/upper_bound/lower_bound on another one and one strto* call; each is judged on
+// its own (independent oracles), and must give what the same call gives when it runs alone afterwards.
+#include <pthread.h>
+static struct
+{
+    unsigned what = 0;              // bit 0 qsort, 1 bsearch+bounds, 2 strto*, 3 on a second thread
+    unsigned long when = 0;         // 0: every comparator call, k: only the k-th
+    unsigned long calls = 0, ran = 0;
+    unsigned iesize = 1;
+    std::vector<int> ikeys;
+    std::string fn;
+    int base = 10;
+    bytes text;
+    std::string inner_seen, st_seen, bad;
+} N;
+static void nbad(const std::string &s)
+{
+    if (N.bad.empty()) N.bad = s;
+}
+static int in_cmp(const void *a, const void *b) { return (int)*(const uint8_t *)a - (int)*(const uint8_t *)b; }
+static int in_kcmp(const void *k, const void *e) { return *(const int *)k - (int)*(const uint8_t *)e; }
+static void nested_do(unsigned what)
+{
+    size_t n = N.ikeys.size();
+    unsigned es = N.iesize;
+    if (what & 1)
+    {
+        exact_buf a(n * es);
+        std::vector<bytes> orig, now;
+        for (size_t i = 0; i < n; i++)
+        {
+            put_elem(a.p + i * es, es, N.ikeys[i], (unsigned)i);
+            orig.emplace_back(a.p + i * es, a.p + (i + 1) * es);
+        }
+        igv_qsort(a.p, n, es, in_cmp);
+        std::vector<std::pair<int, int>> el;
+        for (size_t i = 0; i < n; i++)
+        {
+            const uint8_t *e = a.p + i * es;
+            now.emplace_back(e, e + es);
+            el.emplace_back(e[0], es > 1 ? e[1] : 0);
+            if (!elem_intact(e, es)) nbad("nested qsort: an element is a mixture of bytes of different elements");
+            if (i && a.p[(i - 1) * es] > e[0]) nbad("nested qsort: not ordered at index " + std::to_string(i - 1));
+        }
+        std::sort(orig.begin(), orig.end());
+        std::sort(now.begin(), now.end());
+        if (orig != now) nbad("nested qsort: result is not a permutation of the input");
+        std::string c = canon_runs(0, el, es > 1);
+        if (N.inner_seen.empty()) N.inner_seen = c;
+        else if (N.inner_seen != c) nbad("nested qsort: two calls with the same arguments gave different results");
+    }
+    if ((what & 2) && n)
+    {
+        std::vector<int> sk = N.ikeys;
+        std::sort(sk.begin(), sk.end());
+        exact_buf a(n * es);
+        for (size_t i = 0; i < n; i++) put_elem(a.p + i * es, es, sk[i], (unsigned)i);
+        for (int key : {N.ikeys[0], 255, N.ikeys[n / 2] + 1, 0})
+        {
+            exact_buf kb(sizeof(int));
+            memcpy(kb.p, &key, sizeof key);
+            const uint8_t *q = (const uint8_t *)igv_bsearch(kb.p, a.p, n, es, in_kcmp);
+            bool exists = std::binary_search(sk.begin(), sk.end(), key);
+            if ((q != 0) != exists) nbad("nested bsearch: key " + std::to_string(key) + (exists ? " exists but NULL was returned" : " does not exist but an element was returned"));
+            else if (q && (q < a.p || q >= a.p + n * es || (size_t)(q - a.p) % es || q[0] != key)) nbad("nested bsearch: wrong element returned");
+            const uint8_t *u = (const uint8_t *)igv_upper_bound(kb.p, a.p, n, es, in_kcmp);
+            const uint8_t *l = (const uint8_t *)igv_lower_bound(kb.p, a.p, n, es, in_kcmp);
+            if (u != a.p + (size_t)(std::upper_bound(sk.begin(), sk.end(), key) - sk.begin()) * es) nbad("nested upper_bound: not the first element greater than the key");
+            if (l != a.p + (size_t)(std::lower_bound(sk.begin(), sk.end(), key) - sk.begin()) * es) nbad("nested lower_bound: not the first element not less than the key");
+        }
+    }
+    if (what & 4)
+    {
+        bytes z = N.text;
+        z.push_back(0);
+        exact_buf b(z);
+        const char *s = (const char *)b.p;
+        char *end = (char *)1;
+        const std::string &fn = N.fn;
+        bool sg = fn == "l" || fn == "ll" || fn == "imax" || fn == "q";
+        int saved = errno;
+        errno = 9999;
+        uint64_t v = fn == "l" ? (uint64_t)igv_strtol(s, &end, N.base) : fn == "ul" ? igv_strtoul(s, &end, N.base) : fn == "ll" ? (uint64_t)igv_strtoll(s, &end, N.base)
+                   : fn == "ull" ? igv_strtoull(s, &end, N.base) : fn == "imax" ? (uint64_t)igv_strtoimax(s, &end, N.base) : fn == "umax" ? igv_strtoumax(s, &end, N.base)
+                   : fn == "q" ? (uint64_t)call_strtoq(s, &end, N.base) : call_strtouq(s, &end, N.base);
+        int ierr = errno;
+        errno = saved;
+        parsed p = ref_parse(N.text, N.base);
+        uint64_t rv = sg ? ref_signed(p) : ref_unsigned(p);
+        long re = p.conv ? (long)p.end : 0;
+        bool range = p.conv && (sg ? (p.neg ? p.mag > ((u128)1 << 63) : p.mag > (u128)INT64_MAX) : p.huge);
+        if (v != rv || end - s != re) nbad("nested strto" + fn + ": ISO 7.22.1.4 expects " + hexn(rv, 16) + " end " + std::to_string(re) + ", got " + hexn(v, 16) + " end " + std::to_string((long)(end - s)));
+        if (range != (ierr == ERANGE)) nbad("nested strto" + fn + ": errno ERANGE iff the value is out of range");
+        std::string c = hexn(v, 16) + " " + std::to_string((long)(end - s)) + " " + (ierr == 9999 ? "0" : ierr == ERANGE ? "ERANGE" : ierr == EINVAL ? "EINVAL" : std::to_string(ierr));
+        if (N.st_seen.empty()) N.st_seen = c;
+        else if (N.st_seen != c) nbad("nested strto*: two calls with the same arguments gave different results");
+    }
+}
+static void *nested_thread(void *w)
+{
+    nested_do(*(unsigned *)w);
+    return 0;
+}
+static void nested_work(unsigned what)
+{
+    N.ran++;
+    if (what & 8)
+    {
+        pthread_t t;
+        unsigned w = what & 7;
+        if (pthread_create(&t, 0, nested_thread, &w)) { nbad("pthread_create failed"); return; }
+        pthread_join(t, 0);
+    }
+    else
+        nested_do(what);
+}
+static void nested_hook()
+{
+    N.calls++;
+    if (N.what && (N.when == 0 || N.calls == N.when)) nested_work(N.what);
+}
+static int qsn_compar(const void *a, const void *b)
+{
+    int r = qs_compar(a, b); // the arguments are judged first ...
+    nested_hook();           // ... then other calls run while the outer one is in the middle of its work
+    return r;
+}
+static int bsn_compar(const void *a, const void *b)
+{
+    nested_hook();
+    return bs_compar(a, b);
+}
+// fields k.. of an op: <when> <what> <iesize> <ikeys> <fn> <base> <hextext>
+static bool nested_setup(const std::vector<std::string> &w, size_t k)
+{
+    N.when = strtoul(w[k].c_str(), 0, 10);
+    N.what = (unsigned)atoi(w[k + 1].c_str());
+    N.iesize = (unsigned)atoi(w[k + 2].c_str());
+    N.ikeys = ints(w[k + 3]);
+    N.fn = w[k + 4];
+    N.base = atoi(w[k + 5].c_str());
+    N.text = unhex(w[k + 6]);
+    N.calls = N.ran = 0;
+    N.inner_seen.clear();
+    N.st_seen.clear();
+    N.bad.clear();
+    static const std::set<std::string> fns(FNS_, FNS_ + 8);
+    return N.iesize >= 1 && fns.count(N.fn);
+}
+// after the outer call: the same calls alone ("one after the other") must give what the nested ones gave
+static std::string nested_finish(out &o)
+{
+    unsigned long ran = N.ran;
+    N.what = 0;
+    nested_do(7);
+    if (!N.bad.empty()) o.fail(N.bad);
+    o.tag(ran == 0 ? "nested-none" : ran == 1 ? "nested-once" : "nested-every-call");
+    return " | " + N.inner_seen + " | " + N.st_seen;
+}
+
 // ------------------------------------------------------------ before main()
 // A few calls made from the constructor of an object with the earliest user
 // init priority: static-initialisation-order dependencies (rand.c's seed is a
@@ -342,9 +506,20 @@ struct premain_t
     }
     static void calls()
     {
-        std::string r = "seed0 " + std::to_string(igv_rand_state());
+        // the initial state is a file-static of rand.c: probed, not named - it is 314567651 iff the first
+        // calls return what the documented LCG gives from that state
+        int rv[3];
+        uint64_t ref = 314567651ull;
+        bool init_ok = true;
+        for (int i = 0; i < 3; i++)
+        {
+            rv[i] = igv_rand();
+            ref = lcg_ref(ref);
+            if ((uint64_t)rv[i] != ref / 2) init_ok = false;
+        }
+        std::string r = std::string("seed0 ") + (init_ok ? "314567651" : "other");
         r += " rand";
-        for (int i = 0; i < 3; i++) r += " " + std::to_string(igv_rand());
+        for (int i = 0; i < 3; i++) r += " " + std::to_string(rv[i]);
         char *e = 0;
         static const char txt[] = " \t-0x7fZ";
         errno = 0;
@@ -418,8 +593,8 @@ static void run_op(const std::vector<std::string> &w, const std::string &, out &
             if (fn == "ull") return igv_strtoull(s, ep, base);
             if (fn == "imax") return (uint64_t)igv_strtoimax(s, ep, base);
             if (fn == "umax") return igv_strtoumax(s, ep, base);
-            if (fn == "q") return (uint64_t)igv_strtoq(s, ep, base);
-            return igv_strtouq(s, ep, base);
+            if (fn == "q") return (uint64_t)call_strtoq(s, ep, base);
+            return call_strtouq(s, ep, base);
         };
         errno = 0;
         if (fn == "l") { hv_ = (uint64_t)strtol(s, &hend, base); sg = true; }
@@ -487,6 +662,7 @@ static void run_op(const std::vector<std::string> &w, const std::string &, out &
                 break;
             }
         if (base == 0) o.tag("base0");
+        if ((fn == "q" && !igv_strtoq) || (fn == "uq" && !igv_strtouq)) o.tag("strtoq-absent");
         return;
     }
     if (op == "at")
@@ -622,13 +798,17 @@ static void run_op(const std::vector<std::string> &w, const std::string &, out &
         if (n >= 8) o.tag("deep");
         return;
     }
-    if (op == "qs")
+    if (op == "qs" || op == "qsn")
     {
         // qs <esize> <cmpkind> <seed> <k0,k1,...>
+        // qsn <esize> <cmpkind> <seed> <when> <what> <iesize> <ikeys> <fn> <base> <hextext> <k0,k1,...>: the comparator
+        //     runs nested qsort / bsearch / strto* calls on other data (see nested_work)
+        bool nest = op == "qsn";
+        if (nest && (w.size() < 12 || !nested_setup(w, 4))) { o.result = "bad-op"; return; }
         unsigned esize = atoi(w[1].c_str());
         int kind = atoi(w[2].c_str());
         unsigned seed = (unsigned)strtoul(w[3].c_str(), 0, 10);
-        std::vector<int> keys = ints(w[4]);
+        std::vector<int> keys = ints(w[nest ? 11 : 4]);
         size_t n = keys.size();
         exact_buf a(n * esize);
         std::vector<bytes> orig;
@@ -640,7 +820,7 @@ static void run_op(const std::vector<std::string> &w, const std::string &, out &
         L = {kind, a.p, n, esize, nullptr, &orig, "", 0, 0};
         const uint8_t *fp0 = (const uint8_t *)__builtin_frame_address(0);
         igv_srand(seed);
-        igv_qsort(a.p, n, esize, qs_compar);
+        igv_qsort(a.p, n, esize, nest ? qsn_compar : qs_compar);
         std::vector<bytes> now;
         std::vector<std::pair<int, int>> el;
         for (size_t i = 0; i < n; i++)
@@ -654,6 +834,7 @@ static void run_op(const std::vector<std::string> &w, const std::string &, out &
         // arrangement inside a class: the result is the canonical form (runs of equal elements sorted)
         o.result = canon_runs(kind, el, esize > 1);
         if (!L.bad.empty()) o.fail(L.bad);
+        if (nest) o.result += nested_finish(o);
         if (L.stack_lo && n >= 64 && (size_t)(fp0 - L.stack_lo) >= n * 96) o.tag("recursion-depth~nmemb");
         for (size_t i = 0; i + 1 < n; i++)
             if (cmp_keys(kind, now[i + 1][0], now[i][0]) < 0)
@@ -732,6 +913,75 @@ static void run_op(const std::vector<std::string> &w, const std::string &, out &
         o.tag(exists ? "present" : "absent");
         if (std::set<int>(keys.begin(), keys.end()).size() < n) o.tag("dups");
         if (n >= 8) o.tag("deep");
+        return;
+    }
+    if (op == "bsn")
+    {
+        // bsn <esize> <cmpkind> <key> <when> <what> <iesize> <ikeys> <fn> <base> <hextext> <k0,k1,...>: bsearch, upper_bound and
+        // lower_bound on one ordered array with a comparator that runs nested qsort / bsearch / strto* calls on other data
+        if (w.size() < 12 || !nested_setup(w, 4)) { o.result = "bad-op"; return; }
+        unsigned esize = atoi(w[1].c_str());
+        int kind = atoi(w[2].c_str());
+        int key = atoi(w[3].c_str());
+        std::vector<int> keys = ints(w[11]);
+        size_t n = keys.size();
+        exact_buf a(n * esize, n || (key & 1) ? 0 : 16);
+        for (size_t i = 0; i < n; i++) put_elem(a.p + i * esize, esize, keys[i], (unsigned)i);
+        exact_buf kb(sizeof(int));
+        memcpy(kb.p, &key, sizeof key);
+        unsigned what = N.what;
+        std::string res;
+        for (int which = 0; which < 3; which++)
+        {
+            L = {kind, a.p, n, esize, kb.p, nullptr, "", 0, 0};
+            N.calls = 0;
+            N.what = what;
+            const uint8_t *r = (const uint8_t *)(which == 0 ? igv_bsearch : which == 1 ? igv_upper_bound : igv_lower_bound)(kb.p, a.p, n, esize, bsn_compar);
+            if (!L.bad.empty()) o.fail(L.bad);
+            if (which == 0)
+            {
+                bool exists = false;
+                for (size_t i = 0; i < n; i++)
+                    if (cmp_keys(kind, key, keys[i]) == 0) exists = true;
+                if (!r)
+                {
+                    res = "null";
+                    if (exists) o.fail("an element equal to the key exists but NULL was returned");
+                }
+                else if (!in_array(r))
+                {
+                    res = "outside";
+                    o.fail("returned pointer is not an element of the array");
+                }
+                else
+                {
+                    size_t i = (size_t)(r - a.p) / esize, lo = i, hi = i;
+                    while (lo > 0 && cmp_keys(kind, key, keys[lo - 1]) == 0) lo--;
+                    while (hi + 1 < n && cmp_keys(kind, key, keys[hi + 1]) == 0) hi++;
+                    res = "found " + std::to_string(lo) + ".." + std::to_string(hi);
+                    if (cmp_keys(kind, key, keys[i]) != 0) o.fail("returned element does not compare equal to the key");
+                }
+                o.tag(exists ? "present" : "absent");
+            }
+            else
+            {
+                bool up = which == 1;
+                size_t exp = up ? (size_t)(std::upper_bound(keys.begin(), keys.end(), key, [&](int k, int el) { return cmp_keys(kind, k, el) < 0; }) - keys.begin())
+                                : (size_t)(std::lower_bound(keys.begin(), keys.end(), key, [&](int el, int k) { return cmp_keys(kind, k, el) > 0; }) - keys.begin());
+                long off = r - a.p;
+                if (off < 0 || off > (long)(n * esize) || off % (long)esize != 0)
+                {
+                    res += " outside(" + std::to_string(off) + ")";
+                    o.fail("returned pointer is outside [base, base + nmemb*size] (byte offset " + std::to_string(off) + ")");
+                }
+                else
+                {
+                    res += " " + std::to_string((size_t)off / esize);
+                    if ((size_t)off / esize != exp) o.fail(std::string(up ? "std::upper_bound" : "std::lower_bound") + " gives index " + std::to_string(exp) + ", got " + std::to_string((size_t)off / esize));
+                }
+            }
+        }
+        o.result = res + nested_finish(o);
         return;
     }
     if (op == "qsg")
@@ -893,8 +1143,8 @@ static void run_op(const std::vector<std::string> &w, const std::string &, out &
         else if (fn == "ull") igv_strtoull(s, &end, base);
         else if (fn == "imax") igv_strtoimax(s, &end, base);
         else if (fn == "umax") igv_strtoumax(s, &end, base);
-        else if (fn == "q") igv_strtoq(s, &end, base);
-        else igv_strtouq(s, &end, base);
+        else if (fn == "q") call_strtoq(s, &end, base);
+        else call_strtouq(s, &end, base);
         errno = 0;
         o.result = "returns";
         if (end < s || end > s + t.size()) o.fail("end pointer outside the string for base " + std::to_string(base));
@@ -906,8 +1156,8 @@ static void run_op(const std::vector<std::string> &w, const std::string &, out &
         // what the compiled code contains, against what the model embeds
         // rand.c's state: only bits 0..31 of an UNSIGNED object influence the sequence (theorem
         // rand_state_width_irrelevant), so any unsigned type of >= 32 bits is the same generator
-        size_t rb = 8 * igv_rand_state_size();
-        o.result = (rb >= 32 && igv_rand_state_unsigned() ? std::string("rand-state>=32u") : "rand-state " + std::to_string(rb) + (igv_rand_state_unsigned() ? "u" : "s")) + " ERANGE " + std::to_string(igv_erange()) + " EINVAL " + std::to_string(igv_einval());
+        // (round 3b: by behaviour - the static is not named any more)
+        o.result = (rand_state_ge32u() ? std::string("rand-state>=32u") : std::string("rand-state-narrower-or-another-generator")) + " ERANGE " + std::to_string(igv_erange()) + " EINVAL " + std::to_string(igv_einval());
         return;
     }
     if (op == "ctype")
@@ -928,671 +1178,7 @@ static void run_op(const std::vector<std::string> &w, const std::string &, out &
     o.result = "bad-op";
 }
 
-// ------------------------------------------------------------ gen
-static std::string render(u128 v, int base, int cs, rng &r)
-{
-    // cs: 0 lower, 1 upper, 2 mixed
-    std::string s;
-    do
-    {
-        int d = (int)(v % base);
-        char c = d < 10 ? '0' + d : ((cs == 0 || (cs == 2 && r.chance(50))) ? 'a' : 'A') + d - 10;
-        s.insert(s.begin(), c);
-        v /= base;
-    } while (v);
-    return s;
-}
-static const std::vector<std::string> SPACES = {"", "", "", " ", "\t", "\n", "\v", "\f", "\r", "  \t\n\v\f\r "};
-static const std::vector<std::string> SIGNS = {"", "+", "-"};
+// (the generator is a translation unit of its own, harness/C11_gen.cpp: compiled in parallel)
+void c11_gen(hv::rng &r, const std::string &tier);
 
-static void st(const char *fn, int base, const std::string &text)
-{
-    // a C string: stop at an embedded NUL so that all sides see the same text
-    std::string t = text.substr(0, text.find('\0'));
-    printf("st %s %d %s\n", fn, base, hex(t).c_str());
-}
-static const char *FNS[8] = {"l", "ul", "ll", "ull", "imax", "umax", "q", "uq"};
-static const int BASES[36] = {0, 2, 3, 4, 5, 6, 7, 8, 9, 10, 11, 12, 13, 14, 15, 16, 17, 18, 19, 20, 21, 22, 23, 24, 25, 26, 27, 28, 29, 30, 31, 32, 33, 34, 35, 36};
-
-static std::string tail_for(int eb, rng &r)
-{
-    // something that must stop the digit run in base eb
-    switch (r.below(8))
-    {
-    case 0: return "";
-    case 1: return " ";
-    case 2: return std::string(1, eb < 10 ? '0' + eb : eb < 36 ? 'a' + eb - 10 : '{');  // first non-digit of the base
-    case 3: return std::string(1, eb < 10 ? '0' + eb : eb < 36 ? 'A' + eb - 10 : '[');
-    case 4: return "-1";
-    case 5: return ".5";
-    case 6: return std::string(1, (char)r.pick(std::vector<int>{'/', ':', '@', '[', '`', '{', 0x80, 0xb0, 0xff, 'x', '_'}));
-    default: return "+";
-    }
-}
-
-static void gen_strto(rng &r, bool th)
-{
-    const u128 SMAX = (u128)INT64_MAX, UMAX = (u128)UINT64_MAX;
-    // (1) overflow boundaries of every function in every base
-    for (int f = 0; f < 8; f++)
-        for (int bi = 0; bi < 36; bi++)
-        {
-            int base = BASES[bi];
-            std::vector<u128> mags = {0, 1, SMAX - 1, SMAX, SMAX + 1, SMAX + 2, UMAX - 1, UMAX, UMAX + 1, UMAX + 2,
-                                      SMAX + 1 + r.below(1000), UMAX - r.below(1000), UMAX + 1 + r.below(1000), (u128)r.next(),
-                                      (u128)r.next() >> r.below(64), ((u128)r.next() << 32) ^ r.next(), (UMAX + 1) * 2, (UMAX + 1) * (u128)(base ? base : 10) + r.below(50)};
-            for (u128 m : mags)
-            {
-                // neighbours obtained by changing the last digit: max±1 in the last place
-                for (int rep = 0; rep < (th ? 3 : 1); rep++)
-                {
-                    int eb = base; // effective base of the rendering
-                    std::string pre;
-                    if (base == 0)
-                    {
-                        int k = (int)r.below(3);
-                        eb = k == 0 ? 10 : k == 1 ? 8 : 16;
-                        pre = k == 1 ? "0" : k == 2 ? (r.chance(50) ? "0x" : "0X") : "";
-                    }
-                    else if (base == 16 && r.chance(50))
-                        pre = r.chance(50) ? "0x" : "0X";
-                    std::string digits = render(m, eb, (int)r.below(3), r);
-                    if (r.chance(25)) digits = std::string(1 + r.below(3), '0') + digits;
-                    for (const std::string &sg : SIGNS)
-                    {
-                        if (!th && sg == "+" && r.chance(60)) continue;
-                        st(FNS[f], base, r.pick(SPACES) + sg + pre + digits + tail_for(eb, r));
-                    }
-                }
-            }
-            // (2) 70-digit runs
-            int eb = base == 0 ? 10 : base;
-            std::string run;
-            for (int i = 0; i < 70; i++) run += render(r.below(eb), eb, 2, r);
-            st(FNS[f], base, r.pick(SIGNS) + run + tail_for(eb, r));
-            st(FNS[f], base, r.pick(SIGNS) + std::string(70, render(eb - 1, eb, 0, r)[0]));
-            st(FNS[f], base, r.pick(SIGNS) + "1" + std::string(69 + r.below(4), '0') + tail_for(eb, r));
-            st(FNS[f], base, r.pick(SPACES) + r.pick(SIGNS) + std::string(80, '0') + "1");
-            // (3) an invalid character at every position of a valid text
-            {
-                std::string pre = (base == 16 || base == 0) && r.chance(60) ? "0x" : "";
-                int e2 = pre.empty() ? eb : 16;
-                std::string v = r.pick(SPACES) + r.pick(SIGNS) + pre;
-                int nd = (int)r.range(1, 6);
-                for (int i = 0; i < nd; i++) v += render(r.below(e2), e2, 2, r);
-                static const std::vector<int> inv = {' ', '-', '+', '/', ':', '@', 'G', 'g', '[', '`', '{', 'x', 'X', '0', 0x80, 0xb1, 0xff, '\t', '.', ',', '_', 'z', 'Z', 1};
-                for (size_t pos = 0; pos <= v.size(); pos++)
-                    for (int k = 0; k < (th ? 6 : 2); k++)
-                    {
-                        std::string t = v;
-                        t.insert(t.begin() + pos, (char)r.pick(inv));
-                        st(FNS[f], base, t);
-                    }
-            }
-        }
-    // (3b) ordinary numbers of every magnitude (0..70 bits) with random dress
-    for (int f = 0; f < 6; f++)
-        for (int bi = 0; bi < 36; bi++)
-            for (int k = 0; k < (th ? 100 : 24); k++)
-            {
-                int base = BASES[bi], eb = base;
-                std::string pre;
-                if (base == 0)
-                {
-                    int q = (int)r.below(3);
-                    eb = q == 0 ? 10 : q == 1 ? 8 : 16;
-                    pre = q == 1 ? "0" : q == 2 ? (r.chance(50) ? "0x" : "0X") : "";
-                }
-                else if (base == 16 && r.chance(60))
-                    pre = r.chance(50) ? "0x" : "0X";
-                unsigned bits = (unsigned)r.below(71);
-                u128 m = (((u128)r.next() << 64) | r.next());
-                m = bits == 0 ? 0 : m >> (128 - bits);
-                if (eb == 10 && base == 0 && m == 0) pre = ""; // "0" alone is octal zero, still fine
-                st(FNS[f], base, r.pick(SPACES) + r.pick(SIGNS) + pre + render(m, eb, (int)r.below(3), r) + tail_for(eb, r));
-            }
-    // (4) every byte value against every base's alphabet: alone and inside a number
-    for (int bi = 0; bi < 36; bi++)
-        for (int c = 1; c < 256; c++)
-        {
-            int f = (bi + c) % 6;
-            st(FNS[f], BASES[bi], std::string(1, (char)c));
-            st(FNS[(f + 1) % 6], BASES[bi], std::string("1") + (char)c + "1");
-            if (th || c < 128)
-                st(FNS[(f + 2) % 6], BASES[bi], std::string("-") + (char)c);
-        }
-    // (5) all strings up to length 3/4 over a small alphabet, in the bases with prefix logic
-    {
-        static const char al[] = {' ', '-', '+', '0', '1', '9', 'x', 'X', 'f', 'g', 'z'};
-        const int A = sizeof al;
-        for (int len = 0; len <= 4; len++)
-        {
-            int total = 1;
-            for (int i = 0; i < len; i++) total *= A;
-            for (int code = 0; code < total; code++)
-            {
-                std::string t;
-                for (int i = 0, c = code; i < len; i++, c /= A) t += al[c % A];
-                static const int bs[4] = {0, 16, 10, 8};
-                for (int k = 0; k < 4; k++)
-                {
-                    if (len <= 3 || th)
-                        for (int f = 0; f < 6; f++) st(FNS[f], bs[k], t);
-                    else if (k < 2)
-                        st(FNS[(code + k) % 6], bs[k], t);
-                }
-            }
-        }
-    }
-    // (5b) all strings over the critical alphabet " \t-+0xX19aAzZ8g":
-    //   length <= 3: every entry point (8) x bases {0, 16} + one of {10, 36, 8, 2, 11, 35} in rotation
-    //   length 4: every string once per base {0, 16}, entry point in rotation (thorough: every entry point)
-    //   length 5: a random sample (thorough: a 15x larger one)
-    {
-        static const char al[] = {' ', '\t', '-', '+', '0', 'x', 'X', '1', '9', 'a', 'A', 'z', 'Z', '8', 'g'};
-        const int A = sizeof al;
-        static const int other[6] = {10, 36, 8, 2, 11, 35};
-        unsigned rot = 0;
-        for (int len = 0; len <= 4; len++)
-        {
-            int total = 1;
-            for (int i = 0; i < len; i++) total *= A;
-            for (int code = 0; code < total; code++)
-            {
-                std::string t;
-                for (int i = 0, c = code; i < len; i++, c /= A) t += al[c % A];
-                if (len <= 3)
-                    for (int f = 0; f < 8; f++)
-                    {
-                        st(FNS[f], 0, t);
-                        st(FNS[f], 16, t);
-                        st(FNS[f], other[rot++ % 6], t);
-                    }
-                else if (th)
-                    for (int f = 0; f < 8; f++) st(FNS[f], (code + f) % 2 ? 0 : 16, t);
-                else
-                {
-                    st(FNS[rot % 8], 0, t);
-                    st(FNS[(rot + 3) % 8], 16, t);
-                    rot++;
-                }
-            }
-        }
-        for (int k = 0; k < (th ? 300000 : 20000); k++)
-        {
-            std::string t;
-            for (int i = 0; i < 5; i++) t += al[r.below(A)];
-            st(FNS[r.below(8)], r.chance(70) ? (r.chance(50) ? 0 : 16) : BASES[r.below(36)], t);
-        }
-    }
-    // (6) hand-picked
-    static const std::vector<std::string> pick = {"", " ", "-", "+", "0x", "0X", "0xg", "0xG", "-0x", "-0xz", "+0x", "0x-1", "0x+1", "0x 1", "- 1", "+-1", "-+1", "--1",
-                                                  "0", "00", "08", "09", "0b1", "0x0x1", "0x0", "0x00x", " \t\n\v\f\r1", "\x1c" "1", "\x85" "1", "\xa0" "1",
-                                                  "9223372036854775807", "9223372036854775808", "-9223372036854775808", "-9223372036854775809",
-                                                  "18446744073709551615", "18446744073709551616", "-18446744073709551615", "-18446744073709551616", "-1",
-                                                  "0x7fffffffffffffff", "0x8000000000000000", "-0x8000000000000000", "-0x8000000000000001", "0xffffffffffffffff", "0x10000000000000000",
-                                                  "0777777777777777777777", "01000000000000000000000", "-01000000000000000000000", "01777777777777777777777", "02000000000000000000000",
-                                                  "1x", "1X", "0x1x", "x1", "0xx", "00x1", "0 x1", "zz", "ZZ", "Zz", "-zz", "1z", "z1"};
-    for (int f = 0; f < 8; f++)
-        for (auto &t : pick)
-            for (int base : {0, 16, 10, 8, 2, 36, 35, 11})
-                st(FNS[f], base, t);
-    // (7) atol / atoi: decimal texts whose value fits in long (beyond that ISO leaves the behaviour undefined)
-    {
-        std::vector<std::string> ts = {"", "0", "-0", "+0", "1", "-1", "+1", " 42", "\t\n-42x", "2147483647", "-2147483648", "2147483648", "-2147483649", "4294967295", "4294967296",
-                                       "9223372036854775807", "-9223372036854775807", "-9223372036854775808", "0009223372036854775807", "-0009223372036854775808", "12a", "a12", "- 1", "+-1", "0x10", "010", "1 2", "1e3", "٣",
-                                       "922337203685477580", "-922337203685477580", "9223372036854775800", "-9223372036854775800"};
-        for (int i = 0; i < (th ? 4000 : 600); i++)
-        {
-            u128 m = r.chance(30) ? r.below(100000) : r.chance(50) ? (u128)INT64_MAX - r.below(50) : (u128)(r.next() >> (1 + r.below(63)));
-            std::string sg = r.pick(SIGNS);
-            std::string d = render(m, 10, 0, r);
-            if (r.chance(20)) d = std::string(1 + r.below(4), '0') + d;
-            ts.push_back(r.pick(SPACES) + sg + d + tail_for(10, r));
-        }
-        for (int i = 0; i < 40; i++)
-        {
-            int64_t x = r.chance(50) ? INT_MAX : INT_MIN;
-            ts.push_back(std::to_string(x + r.range(-3, 3)));
-        }
-        for (auto &t : ts)
-        {
-            std::string tt = t.substr(0, t.find('\0'));
-            printf("at l %s\nat i %s\n", hex(tt).c_str(), hex(tt).c_str());
-        }
-        for (int c = 1; c < 256; c++)
-        {
-            std::string t = std::string(1, (char)c) + "7";
-            printf("at l %s\nat i %s\n", hex(t).c_str(), hex(std::string("5") + t).c_str());
-        }
-        // atoll = strtoll(s, 0, 10): defined for every text (clamps), so the overflowing ones too
-        for (auto &t : ts)
-        {
-            std::string tt = t.substr(0, t.find('\0'));
-            printf("at ll %s\n", hex(tt).c_str());
-        }
-        for (const char *t : {"9223372036854775808", "-9223372036854775809", "99999999999999999999", "-99999999999999999999", " +9223372036854775807x", "18446744073709551616"})
-            printf("at ll %s\n", hex(std::string(t)).c_str());
-        // every string of length <= 4 over " \t-+019a" (white space, signs, digits, a stopper): all representable
-        {
-            static const char al[] = {' ', '\t', '-', '+', '0', '1', '9', 'a'};
-            const int A = sizeof al;
-            for (int len = 0; len <= 4; len++)
-            {
-                int total = 1;
-                for (int i = 0; i < len; i++) total *= A;
-                for (int code = 0; code < total; code++)
-                {
-                    std::string t;
-                    for (int i = 0, c = code; i < len; i++, c /= A) t += al[c % A];
-                    printf("at %s %s\n", code % 3 == 0 ? "l" : code % 3 == 1 ? "i" : "ll", hex(t).c_str());
-                    if (len <= 3) printf("at l %s\nat i %s\n", hex(t).c_str(), hex(t).c_str());
-                }
-            }
-        }
-        // atoi beyond int, inside long (truncation) with white space and signs
-        for (int i = 0; i < (th ? 400 : 60); i++)
-        {
-            u128 m = (u128)INT_MAX + 1 + (r.chance(50) ? r.below(5) : (r.next() >> (1 + r.below(32))));
-            if (m > (u128)INT64_MAX) m = (u128)INT64_MAX;
-            printf("at i %s\n", hex(r.pick(SPACES) + r.pick(SIGNS) + render(m, 10, 0, r) + tail_for(10, r)).c_str());
-        }
-    }
-}
-
-static std::string join(const std::vector<int> &v)
-{
-    if (v.empty()) return "-";
-    std::string s;
-    for (size_t i = 0; i < v.size(); i++) s += (i ? "," : "") + std::to_string(v[i]);
-    return s;
-}
-static unsigned esz(rng &r)
-{
-    static const std::vector<unsigned> fav = {1, 2, 3, 4, 7, 8, 12, 16, 31, 32, 33, 64};
-    return r.chance(50) ? r.pick(fav) : (unsigned)r.range(1, 32);
-}
-
-static void gen_qsort(rng &r, bool th)
-{
-    // (1) every array over {0,1,2} up to length 6 (7 in thorough), two pivot streams
-    for (int len = 0; len <= (th ? 8 : 7); len++)
-    {
-        int total = 1;
-        for (int i = 0; i < len; i++) total *= 3;
-        for (int code = 0; code < total; code++)
-        {
-            std::vector<int> v;
-            for (int i = 0, c = code; i < len; i++, c /= 3) v.push_back(c % 3);
-            printf("qs %u 0 %u %s\n", 1 + (unsigned)(code % 32), (unsigned)code, join(v).c_str());
-            if (len <= 6) printf("qs %u %d %u %s\n", esz(r), 1 + code % 4, (unsigned)r.next(), join(v).c_str());
-        }
-    }
-    // (2) every permutation of 0..n-1, n <= 6 (7 thorough)
-    for (int n = 1; n <= (th ? 7 : 6); n++)
-    {
-        std::vector<int> v(n);
-        for (int i = 0; i < n; i++) v[i] = i;
-        do
-            printf("qs %u %d %u %s\n", esz(r), (int)r.below(5), (unsigned)r.next(), join(v).c_str());
-        while (std::next_permutation(v.begin(), v.end()));
-    }
-    // (3) every length 0..40 (thorough: ..120), duplicate-rich, every comparator, shapes
-    int maxn = th ? 120 : 40;
-    for (int rep = 0; rep < (th ? 6 : 3); rep++)
-        for (int n = 0; n <= maxn; n++)
-            for (int kind = 0; kind < 5; kind++)
-            {
-                std::vector<int> v(n);
-                int m = (int)r.pick(std::vector<int>{1, 2, 3, 5, n ? n : 1, 256, 4, 16});
-                for (auto &x : v) x = (int)r.below(m);
-                switch (r.below(7))
-                {
-                case 0: std::sort(v.begin(), v.end()); break;
-                case 1: std::sort(v.rbegin(), v.rend()); break;
-                case 2: // organ pipe
-                    std::sort(v.begin(), v.end());
-                    std::reverse(v.begin() + n / 2, v.end());
-                    break;
-                case 3: // one outlier
-                    if (n) v[r.below(n)] = 255;
-                    break;
-                default: break;
-                }
-                printf("qs %u %d %u %s\n", esz(r), kind, (unsigned)r.next(), join(v).c_str());
-            }
-    // (4) every element size 1..32 at lengths 4..9
-    for (unsigned e = 1; e <= 32; e++)
-        for (int n = 4; n <= 9; n++)
-        {
-            std::vector<int> v(n);
-            for (auto &x : v) x = (int)r.below(6);
-            printf("qs %u %d %u %s\n", e, (int)r.below(5), (unsigned)r.next(), join(v).c_str());
-        }
-    // (5) element sizes 1,2,3,4,7,8,16,31,32,33,64 (beyond the 32 of the property text: the
-    // swap buffer and the pivot copy are VLAs of `size` bytes) x lengths around the network /
-    // partition switch and larger, few distinct keys (many duplicates), every comparator
-    for (unsigned e : {1u, 2u, 3u, 4u, 7u, 8u, 16u, 31u, 32u, 33u, 64u})
-        for (int n : {0, 1, 2, 3, 4, 5, 6, 7, 8, 9, 12, 17, 33, 64, 100})
-            for (int rep = 0; rep < (th ? 4 : 1); rep++)
-            {
-                std::vector<int> v(n);
-                int m = (int)r.pick(std::vector<int>{1, 2, 2, 3, 3, 4, 7});
-                for (auto &x : v) x = (int)r.below(m);
-                if (r.chance(20)) std::sort(v.begin(), v.end());
-                printf("qs %u %d %u %s\n", e, (int)r.below(5), (unsigned)r.next(), join(v).c_str());
-            }
-    // rand_r: the caller's seed, including the ones whose product with the
-    // multiplier does not fit a signed long (> 557 434 000)
-    for (unsigned sd : {0u, 1u, 557433999u, 557434000u, 557434001u, 2147483647u, 2147483648u, 4294967295u, 314567651u})
-        printf("rndr %u %d\n", sd, 6);
-    for (int i = 0; i < (th ? 100 : 20); i++) printf("rndr %u %d\n", (unsigned)r.next(), (int)r.range(1, 20));
-    // rand.c itself
-    for (int i = 0; i < (th ? 200 : 40); i++)
-        printf("rnd %u %d\n", i < 5 ? (unsigned)i : (unsigned)r.next(), (int)r.range(1, 40));
-    printf("rnd 4294967295 8\nrnd 314567651 8\n");
-}
-
-static void order_for(std::vector<int> &v, int kind, rng &r)
-{
-    if (kind == 0 || kind == 4) std::sort(v.begin(), v.end());
-    else if (kind == 1) std::sort(v.rbegin(), v.rend());
-    else if (kind == 2)
-    {
-        // ordered by class k/2, arbitrary inside a class
-        std::sort(v.begin(), v.end());
-        for (size_t i = 0; i + 1 < v.size(); i++)
-            if (v[i] / 2 == v[i + 1] / 2 && r.chance(50)) std::swap(v[i], v[i + 1]);
-    }
-    // kind 3: any order is ordered
-}
-
-static void gen_bsearch(rng &r, bool th)
-{
-    // (1) every non-decreasing array over {1,3,5} up to length 7, every key 0..6
-    for (int len = 0; len <= (th ? 9 : 7); len++)
-    {
-        int total = 1;
-        for (int i = 0; i < len; i++) total *= 3;
-        for (int code = 0; code < total; code++)
-        {
-            std::vector<int> v;
-            for (int i = 0, c = code; i < len; i++, c /= 3) v.push_back(1 + 2 * (c % 3));
-            if (!std::is_sorted(v.begin(), v.end())) continue;
-            for (int key = 0; key <= 6; key++)
-                printf("bs %u 0 %d %s\n", 1 + (unsigned)((code + key) % 32), key, join(v).c_str());
-        }
-    }
-    // (2) lengths 0..40, every comparator, all keys from below the minimum to above the maximum
-    int maxn = th ? 120 : 40;
-    for (int rep = 0; rep < (th ? 4 : 1); rep++)
-        for (int n = 0; n <= maxn; n++)
-            for (int kind = 0; kind < 5; kind++)
-            {
-                std::vector<int> v(n);
-                int m = (int)r.pick(std::vector<int>{1, 2, 3, 5, n ? n : 1, 2 * n + 1, 12, 40});
-                for (auto &x : v) x = 2 + ((int)r.below(m) * (r.chance(50) ? 2 : 1)) % 252; // an element's key is one byte
-                order_for(v, kind, r);
-                int lo = 0, hi = 3;
-                for (int x : v) hi = std::max(hi, x + 2);
-                unsigned e = esz(r);
-                for (int key = lo; key <= hi; key++)
-                    if (th || hi < 30 || r.chance(40) || std::find(v.begin(), v.end(), key) != v.end())
-                        printf("bs %u %d %d %s\n", e, kind, key, join(v).c_str());
-            }
-    // (3) the empty array with every element size
-    for (unsigned e = 1; e <= 32; e++) printf("bs %u %d %d -\n", e, (int)(e % 5), (int)r.below(9));
-}
-
-static void gen_bounds(rng &r, bool th)
-{
-    static const std::vector<unsigned> sizes = {1, 2, 3, 4, 7, 8, 16, 31, 32, 33, 64};
-    // (1) every non-decreasing array over {1,3,5} up to length 7 (thorough 9), every key 0..6, both functions
-    unsigned rot = 0;
-    for (int len = 0; len <= (th ? 9 : 7); len++)
-    {
-        int total = 1;
-        for (int i = 0; i < len; i++) total *= 3;
-        for (int code = 0; code < total; code++)
-        {
-            std::vector<int> v;
-            for (int i = 0, c = code; i < len; i++, c /= 3) v.push_back(1 + 2 * (c % 3));
-            if (!std::is_sorted(v.begin(), v.end())) continue;
-            for (int key = 0; key <= 6; key++)
-            {
-                printf("ub %u 0 %d %s\n", sizes[rot % sizes.size()], key, join(v).c_str());
-                printf("lb %u 0 %d %s\n", sizes[(rot + 5) % sizes.size()], key, join(v).c_str());
-                rot++;
-            }
-        }
-    }
-    // (2) lengths 0..40 (thorough ..120), every comparator, duplicate-rich, keys from below the minimum to above the maximum
-    int maxn = th ? 120 : 40;
-    for (int rep = 0; rep < (th ? 4 : 1); rep++)
-        for (int n = 0; n <= maxn; n++)
-            for (int kind = 0; kind < 5; kind++)
-            {
-                std::vector<int> v(n);
-                int m = (int)r.pick(std::vector<int>{1, 2, 3, 5, n ? n : 1, 2 * n + 1, 12, 40});
-                for (auto &x : v) x = 2 + ((int)r.below(m) * (r.chance(50) ? 2 : 1)) % 252;
-                order_for(v, kind, r);
-                int lo = 0, hi = 3;
-                for (int x : v) hi = std::max(hi, x + 2);
-                unsigned e = r.pick(sizes);
-                for (int key = lo; key <= hi; key++)
-                    if (th || hi < 30 || r.chance(40) || std::find(v.begin(), v.end(), key) != v.end())
-                    {
-                        printf("ub %u %d %d %s\n", e, kind, key, join(v).c_str());
-                        printf("lb %u %d %d %s\n", e, kind, key, join(v).c_str());
-                    }
-            }
-    // (3) nmemb 0 and 1 at every element size (base of the empty array = one-past-the-end of an allocation)
-    for (unsigned e : sizes)
-        for (int kind = 0; kind < 5; kind++)
-        {
-            printf("ub %u %d %d -\nlb %u %d %d -\n", e, kind, (int)r.below(9), e, kind, (int)r.below(9));
-            for (int key : {3, 4, 5})
-                printf("ub %u %d %d 4\nlb %u %d %d 4\nbs %u %d %d 4\n", e, kind, key, e, kind, key, e, kind, key);
-        }
-}
-
-// ------------------------------------------------------------ round 3
-// rand.c transcribed for the GENERATOR only (to build arrays that are adversarial for the pivot
-// sequence of a given seed); if rand.c changes, those arrays merely stop being adversarial
-static int gen_rand(uint64_t &sd)
-{
-    sd = (uint32_t)(sd * 16546134871ull + 513585871ull) % 204814687u;
-    return (int)(uint32_t)sd >> 1;
-}
-// an array on which, with the pivots of srand(seed), every partition step picks the unique minimum of
-// its sub-array: one side of every partition is empty, the recursion is nmemb - 3 calls deep
-// (qsort_recursion_depth: the bound nmemb + 1 is of the right order) - as far as one key byte allows
-static std::vector<int> adversarial(size_t n, unsigned seed)
-{
-    uint64_t sd = seed;
-    std::vector<int> val(n, -1);
-    std::vector<size_t> pos(n);
-    for (size_t i = 0; i < n; i++) pos[i] = i;
-    size_t lo = 0;
-    int level = 0;
-    while (n - lo >= 4 && level < 250)
-    {
-        size_t p = lo + (size_t)gen_rand(sd) % (n - lo);
-        val[pos[p]] = level++;
-        std::swap(pos[lo], pos[p]);
-        lo++;
-    }
-    for (size_t i = 0; i < n; i++)
-        if (val[i] < 0) val[i] = level + (int)(i % 5);
-    return val;
-}
-static void order_by_cmp(std::vector<int> &v, int kind, rng &r)
-{
-    for (size_t i = v.size(); i > 1; i--) std::swap(v[i - 1], v[r.below(i)]);
-    std::stable_sort(v.begin(), v.end(), [&](int a, int b) { return cmp_keys(kind, a, b) < 0; });
-}
-
-static void gen_round3(rng &r, bool th)
-{
-    puts("consts");
-    puts("ctype");
-    // (the descriptive word makes the line longer than the small direct ops: bin/check replays the shortest failing op first)
-    puts("premain strtol,strtoull,rand,qsort(9x3),bsearch-called-from-a-constructor-with-init_priority(101)-before-main");
-    // ---- strto*: state kept between calls?  Consecutive calls of ONE function with the sign and the
-    // magnitude alternating around the limits (a cache keyed by the base alone would mix the limits of
-    // the two signs), then the same text through all eight functions, base by base.
-    {
-        const u128 SMAX = (u128)INT64_MAX, UMAX = (u128)UINT64_MAX;
-        for (int f = 0; f < 8; f++)
-            for (int base : {10, 16, 8, 36, 2, 3, 0, 7, 35})
-            {
-                int eb = base ? base : 10;
-                const std::pair<const char *, u128> seq[] = {{"-", 1}, {"", SMAX + 1}, {"-", SMAX + 1}, {"", SMAX}, {"-", SMAX + 2}, {"+", UMAX}, {"-", UMAX}, {"", UMAX + 1}, {"-", 0}, {"", SMAX + 1}, {"-", SMAX + 1}};
-                for (auto &q : seq) st(FNS[f], base, std::string(q.first) + render(q.second, eb, (int)r.below(3), r));
-            }
-        for (int bi = 0; bi < 36; bi++)
-        {
-            int base = BASES[bi], eb = base ? base : 10;
-            for (int f = 0; f < 8; f++) st(FNS[f], base, "-" + render(1 + r.below(9), eb, 0, r));
-            for (int f = 0; f < 8; f++) st(FNS[f], base, render(SMAX + 1, eb, 0, r));
-            for (int f = 7; f >= 0; f--) st(FNS[f], base, "-" + render(SMAX + 1, eb, 1, r));
-            for (int f = 0; f < 8; f++) st(FNS[f], base, render(UMAX, eb, 0, r) + (r.chance(50) ? "" : " "));
-        }
-        for (int f = 0; f < 8; f++)
-            for (const char *t : {"+ 1", "- 1", "+", "-0x", "-0xg", "+0x", "0x", "0xx", "\v\f 0x1", "\v\f-0X", "0x 1", "-0", "+0", "-00x1", "0x-1", "\x1f" "1", "\x0e" "1", "\x08" "1"})
-                for (int base : {0, 16, 10})
-                    st(FNS[f], base, t);
-    }
-    // ---- texts of >= 300 KiB (the loops are linear)
-    {
-        unsigned rot = (unsigned)r.below(8);
-        for (int k = 0; k < (th ? 8 : 3); k++)
-            for (int f = 0; f < 8; f++)
-            {
-                const char *fn = FNS[f];
-                switch ((f + rot + k) % 4)
-                {
-                case 0: printf("stL %s 10 %s %s %u %s\n", fn, hex(std::string(k & 1 ? "-" : "")).c_str(), hex(std::string("1")).c_str(), 307200u + (unsigned)r.below(9), hex(std::string("x")).c_str()); break;
-                case 1: printf("stL %s 16 %s %s %u %s\n", fn, hex(std::string("-0x")).c_str(), hex(std::string("0")).c_str(), 307200u, hex(std::string("7fg")).c_str()); break;
-                case 2: printf("stL %s 0 - %s %u %s\n", fn, hex(std::string(" \t\n\v\f\r")).c_str(), 51200u, hex(std::string("+017x")).c_str()); break;
-                default: printf("stL %s 36 %s %s %u -\n", fn, hex(std::string(" ")).c_str(), hex(std::string("zZ9")).c_str(), 102400u + (unsigned)r.below(3)); break;
-                }
-            }
-    }
-    // ---- bases outside {0, 2..36}: ISO leaves the call undefined; only "returns, end pointer inside".
-    // (base -1 is not generated: strtoll/strtoq compute LLONG_MIN % base for a negative text, which traps.)
-    for (int f = 0; f < 8; f++)
-        for (int base : {1, 37, 38, 64, 100, 255, 256, 257, 65536, 65546, -2, -10, -36, INT_MAX, INT_MIN})
-            for (const char *t : {"", "0", "10", "-7", "zz", " +0x1f", "00000", "-1Zz9"})
-                printf("stx %s %d %s\n", FNS[f], base, hex(std::string(t)).c_str());
-    // ---- qsort: comparators with large classes (5) / on a part of the key (6)
-    for (int rep = 0; rep < (th ? 6 : 2); rep++)
-        for (int n = 0; n <= 40; n++)
-            for (int kind : {5, 6})
-            {
-                std::vector<int> v(n);
-                int m = (int)r.pick(std::vector<int>{256, 256, 32, 17, 64});
-                for (auto &x : v) x = (int)r.below(m);
-                if (r.chance(25)) order_by_cmp(v, kind, r);
-                printf("qs %u %d %u %s\n", esz(r), kind, (unsigned)r.next(), join(v).c_str());
-            }
-    // every element size 1..64 (the VLAs temp[size], key[size])
-    for (unsigned e = 1; e <= 64; e++)
-        for (int n : {2, 3, 4, 5, 9, 20})
-        {
-            std::vector<int> v(n);
-            int m = (int)r.pick(std::vector<int>{2, 3, 6, 256});
-            for (auto &x : v) x = (int)r.below(m);
-            printf("qs %u %d %u %s\n", e, (int)r.below(7), (unsigned)r.next(), join(v).c_str());
-        }
-    // adversarial for the pivot sequence: recursion as deep as the array is long
-    for (size_t n : {8u, 33u, 100u, 250u, 256u})
-        for (int rep = 0; rep < (th ? 4 : 1); rep++)
-        {
-            unsigned seed = (unsigned)r.next();
-            printf("qs %u 0 %u %s\n", (unsigned)r.pick(std::vector<unsigned>{2, 4, 24, 40}), seed, join(adversarial(n, seed)).c_str());
-        }
-    {
-        unsigned seed = (unsigned)r.next();
-        printf("qs 1 0 %u %s\n", seed, join(adversarial(600, seed)).c_str());
-    }
-    // generated arrays: boundary lengths, long arrays (the model is executed up to 600 elements,
-    // beyond that the driver prints the ordered key sequence the theorems prescribe)
-    {
-        static const int kinds[7] = {0, 1, 5, 6, 2, 4, 3};
-        unsigned rot = 0;
-        for (size_t n : {0u, 1u, 3u, 4u, 5u, 31u, 100u, 255u, 256u, 257u, 400u, 600u})
-            for (unsigned shape = 0; shape < 5; shape++)
-                printf("qsg %u %d %u %zu %u %u\n", esz(r), kinds[rot++ % 7], (unsigned)r.next(), n, shape, (unsigned)r.pick(std::vector<unsigned>{2, 7, 256, 256}));
-        for (size_t n : {601u, 4095u, 4096u, 5000u, 65535u, 65536u, 65537u})
-            for (unsigned shape = 0; shape < (n < 60000 || th ? 5u : 2u); shape++)
-                printf("qsg %u %d %u %zu %u %u\n", n > 60000 ? (unsigned)r.pick(std::vector<unsigned>{1, 2, 5}) : esz(r), kinds[rot++ % 7], (unsigned)r.next(), n, shape, (unsigned)r.pick(std::vector<unsigned>{3, 256, 256}));
-        printf("qsg 4 0 %u 300000 0 256\n", (unsigned)r.next());
-        // (random keys only at this length: with 256 distinct keys a structured shape costs a
-        // deterministic-pivot quicksort 256 x nmemb comparisons - legitimate, but beyond the per-op time limit)
-        printf("qsg 1 %d %u 307200 0 256\n", kinds[r.below(6)], (unsigned)r.next());
-        if (th)
-        {
-            printf("qsg 2 1 %u 500000 0 256\n", (unsigned)r.next());
-            printf("qsg 3 5 %u 300001 0 200\n", (unsigned)r.next());
-        }
-    }
-    // ---- bsearch / bounds with the new comparators, and with the key object inside the array
-    for (int rep = 0; rep < (th ? 4 : 1); rep++)
-        for (int n = 0; n <= 40; n++)
-            for (int kind : {5, 6})
-            {
-                std::vector<int> v(n);
-                int m = (int)r.pick(std::vector<int>{250, 250, 40, 17});
-                for (auto &x : v) x = (int)r.below(m);
-                order_by_cmp(v, kind, r);
-                unsigned e = esz(r);
-                for (int key = 0; key < m + 3; key += (th || m < 50 ? 1 : 1 + (int)r.below(7)))
-                {
-                    printf("bs %u %d %d %s\n", e, kind, key, join(v).c_str());
-                    printf("ub %u %d %d %s\nlb %u %d %d %s\n", e, kind, key, join(v).c_str(), e, kind, key, join(v).c_str());
-                }
-            }
-    for (int rep = 0; rep < (th ? 6 : 2); rep++)
-        for (int n = 1; n <= 24; n++)
-        {
-            int kind = (int)r.below(7);
-            std::vector<int> v(n);
-            int m = (int)r.pick(std::vector<int>{1, 2, 3, 5, 40, 250});
-            for (auto &x : v) x = (int)r.below(m);
-            order_by_cmp(v, kind, r);
-            unsigned e = esz(r);
-            for (int k = 0; k < n; k++) printf("bsa %u %d %d %s\n", e, kind, k, join(v).c_str());
-        }
-    // ---- one array, several qsort calls with the comparator changed in between, then bsearch
-    for (int rep = 0; rep < (th ? 40 : 8); rep++)
-        for (int n : {0, 1, 3, 4, 7, 12, 30})
-        {
-            std::vector<int> v(n), kd(1 + r.below(4));
-            int m = (int)r.pick(std::vector<int>{2, 5, 40, 256});
-            for (auto &x : v) x = (int)r.below(m);
-            for (auto &x : kd) x = (int)r.below(7);
-            printf("qsr %u %u %s %s\n", esz(r), (unsigned)r.next(), join(kd).c_str(), join(v).c_str());
-        }
-    // ---- atol / atoi / atoll on >= 300 KiB
-    for (const char *fn : {"l", "i", "ll"})
-    {
-        printf("atL %s - %s 307200 %s\n", fn, hex(std::string(" ")).c_str(), hex(std::string("-123x")).c_str());
-        printf("atL %s %s %s 307200 %s\n", fn, hex(std::string("\t+")).c_str(), hex(std::string("0")).c_str(), hex(std::string("2147483647 ")).c_str());
-    }
-    // rand / rand_r: long runs on one state
-    printf("rnd 1 300\nrnd 0 300\nrnd 204814686 50\nrnd 204814687 50\nrndr 204814687 50\n");
-}
-
-static void gen(rng &r, const std::string &tier)
-{
-    bool th = tier == "thorough";
-    puts("widths");
-    gen_strto(r, th);
-    gen_qsort(r, th);
-    gen_bsearch(r, th);
-    gen_bounds(r, th);
-    gen_round3(r, th);
-}
-
-int main(int argc, char **argv) { return main_(argc, argv, gen, run_op); }
+int main(int argc, char **argv) { return main_(argc, argv, c11_gen, run_op); }
